@@ -25,7 +25,7 @@ from harness import core
 from harness.props import _followup_common as FC
 
 MANIFEST_ENTRY = {
-    "text": "Lean theorems over an executable model of the follow-up work practice (candidate pool, in-pool / in-queue flags, first-candidate date, detection records, follow-up queue), proved by induction over arbitrary histories of screenings, daily updates, follow-up days with arbitrary survey outcomes and tagging surveys: one_outstanding (a site is queued exactly once iff flagged, never pooled and queued; flags = completed + withdrawn + outstanding), each_flag_at_most_one_followup, queued_implies_flagged (every flag stems from released detections of the site with filtered rate >= threshold / rolling-window thresholds or >= instant threshold), not_before_reporting_delay (flags and follow-up visits; + delay from the first candidate on the pool route), proportion (a decision keeps the first min(ceil(p*n),|pool|) candidates of the pool sorted by decreasing rate; upper bound ceil(p*(c+|pool|)) with the proportion first), stale_discarded (release-time check), followup_only_from_queue, C09_partial for one screening method per follow-up method. C09_counterexample (two screening methods sharing a follow-up method queue a site twice, F13) and C09_stale_counterexample (a pooled candidate survives a later tagging survey, F17) prove the full statement false of the code as it stands. The model is tied to the real SiteLevelMethod / FollowUpMobileSchedule / FollowUpSurveyPlanner / ComponentLevelMethod / Workplan by per-operation differential correspondence on generated multi-day histories on every run, the property's clauses are evaluated directly on the real objects' logs, and whole simulations are checked through observation wrappers.",
+    "text": "Lean theorems over an executable model of the follow-up work practice (candidate pool, in-pool / in-queue flags, first-candidate date, detection records, follow-up queue), proved by induction over arbitrary histories of screenings, daily updates, follow-up days with arbitrary survey outcomes and tagging surveys: one_outstanding (a site is queued exactly once iff flagged, never pooled and queued; flags = completed + withdrawn + outstanding), each_flag_at_most_one_followup, queued_implies_flagged (every flag stems from released detections of the site with filtered rate >= threshold / rolling-window thresholds or >= instant threshold), not_before_reporting_delay (flags and follow-up visits; + delay from the first candidate on the pool route), proportion (a decision keeps the first min(ceil(p*n),|pool|) candidates of the pool sorted by decreasing rate; upper bound ceil(p*(c+|pool|)) with the proportion first), stale_discarded (release-time check), followup_only_from_queue, C09_partial for one screening method per follow-up method. C09_counterexample (two screening methods sharing a follow-up method queue a site twice, F13) and C09_stale_counterexample (a pooled candidate survives a later tagging survey, F17) prove the full statement false of the code as it stands. The model is tied to the real SiteLevelMethod / FollowUpMobileSchedule / FollowUpSurveyPlanner / ComponentLevelMethod / Workplan by per-operation differential correspondence on generated multi-day histories on every run, the property's clauses are evaluated directly on the real objects' logs, and whole simulations are checked through observation wrappers. Layer 3 (every run): SiteLevelMethod.update_mobile is translated from the current source to Lean (harness/extract/followup_src.py -> Generated/FollowUpSrc.lean) and Props/FollowUpTie.lean is re-checked: the translated decision with its recorded calls on pool, plan and follow-up schedule interpreted as the model's operations is FollowUp.updMobile (pool, queue, the site's flags, the detection counter); a method outside the translated subset is a note, a failing tie theorem a broken obligation.",
     "design_ref": "DESIGN.md 5.9, 4.3",
     "note": "trusted: Lean kernel + propext/Classical.choice/Quot.sound; the hand-written model (tied by sampled correspondence, not proof); harness adapter with stub sites and scripted measured rates; rates/thresholds on an integer grid (multiples of 840) and dyadic proportions so that every double the code computes is the correctly rounded value of a small rational (recovered exactly, asserted); follow-up survey outcomes (crew budget) are inputs of the model; float artefacts of ceil(n*p) for non-dyadic proportions (e.g. 25*0.28) and a follow-up method with its own survey frequency (AttributeError in the real code) are outside the check",
     "technique": "Lean 4 invariant proofs over the work-practice state machine + differential correspondence with the real classes + direct oracle + whole-run trace oracle",
